@@ -440,17 +440,22 @@ pub fn parse_choice_text(input: &str) -> Result<ParsedChoiceText, CompilerError>
         && let Some(close_rel) = trimmed[open + 1..].find(']')
     {
         let close = open + 1 + close_rel;
+        // `start[choice only]end`: the choice reads start + choice-only text, the chosen branch
+        // prints start + end, each exactly as written (whitespace is cleaned when the text is read)
         let start = &trimmed[..open];
-        let choice_only = trimmed[open + 1..close].trim();
-        let end = trimmed[close + 1..].trim_start();
+        let choice_only = &trimmed[open + 1..close];
+        let end = &trimmed[close + 1..];
         let (end, inline_target) = split_inline_choice_divert(end)?;
         let (start_text, start_tags) = split_text_and_tags(start)?;
         let (choice_only_text, choice_only_tags) = split_text_and_tags(choice_only)?;
         let (end_text, end_tags) = split_text_and_tags(end)?;
-        // Append closing punctuation from `end` to choice_only_text only when the
-        // `end` segment is plain text that starts with closing punctuation (like `."` or `,'`).
-        // Do NOT pull chars from an expression like `{foo}`.
-        let display_suffix: String = if !end.trim_start().starts_with('{') {
+        // Kept for compatibility with an existing test: a closing quote that follows the bracket
+        // directly (`[...],' he said`) is shown in the choice as well - unless the bracketed text
+        // closes the quote itself (`[.'],' he said`), which is what authors normally write.
+        let closes_itself = choice_only_text
+            .trim_end()
+            .ends_with(|c: char| matches!(c, '\'' | '"' | ')' | ']'));
+        let display_suffix: String = if !closes_itself && !end.trim_start().starts_with('{') {
             end_text
                 .chars()
                 .take_while(|c| c.is_ascii_punctuation())
@@ -461,16 +466,10 @@ pub fn parse_choice_text(input: &str) -> Result<ParsedChoiceText, CompilerError>
         };
         let choice_only_text = format!("{choice_only_text}{display_suffix}");
         let display = format!("{start_text}{choice_only_text}");
-        let selected_text = if end_text.is_empty() {
-            start_text.trim_end().to_owned()
-        } else if start_text.trim().is_empty() {
-            end_text
-        } else if end_text
-            .starts_with(|c: char| c.is_ascii_punctuation() && c != '"' && c != '\'' && c != '{')
-        {
-            format!("{}{}", start_text.trim_end(), end_text)
+        let selected_text = if start_text.trim().is_empty() {
+            end_text.trim_start().to_owned()
         } else {
-            format!("{} {}", start_text.trim_end(), end_text)
+            format!("{start_text}{end_text}").trim_end().to_owned()
         };
         let mut selected_tags = start_tags.clone();
         selected_tags.extend(end_tags);
